@@ -189,6 +189,13 @@ class Prop:
                         nn = dict(nodes)
                         nn[j] = ('O', 0, 1, nodes[j][3])
                         cs.append(Case(self.mk(root, nn, 'root'), 'chain-%d-nullable-type' % k))
+                    # a type of the chain also has an optional member that is a choice (types of its own are registered in its table):
+                    # the chain of plain mandatory links is what it was
+                    for j in nodes:
+                        nn = dict(nodes)
+                        nn[j] = ('O', 0, 0, [('R', 1, 0, [j, (j + 1) % (k + 1)])] + list(nodes[j][3]))
+                        for style in ('root', 'all'):
+                            cs.append(Case(self.mk(root, nn, style), 'chain-%d-choice-aside' % k))
         # random graphs over up to 6 types, up to 3 properties, nested objects
         nrand = 1500 if tier == 'quick' else 30000
         for _ in range(nrand):
